@@ -55,6 +55,16 @@ def unit_relabel(ctx, dtype):
                         names.add(tg.id)
         return [x for x in names if isinstance(scope.vars.get(x), (int, SymInt)) and not isinstance(scope.vars.get(x), bool)]
 
+    def find_base(scope, loop):
+        """the integer local the fresh labels are computed from: the counter incremented in the loop, or - when the loop derives the
+        label from the iteration index - the one integer local (bound before the loop) that the loop body reads"""
+        ctrs = find_counter(scope, loop)
+        if ctrs:
+            return ctrs, True
+        targets = {n.id for n in ast.walk(loop.target) if isinstance(n, ast.Name)}
+        reads = {n.id for st_ in loop.body for n in ast.walk(st_) if isinstance(n, ast.Name) and isinstance(n.ctx, ast.Load)} - targets
+        return [x for x in sorted(reads) if isinstance(scope.vars.get(x), (int, SymInt)) and not isinstance(scope.vars.get(x), bool)], False
+
     def the_loop(scope):
         loops = sorted([x for x in ast.walk(scope.func.node) if isinstance(x, ast.For)], key=lambda x: x.lineno)
         return loops[0]
@@ -73,11 +83,12 @@ def unit_relabel(ctx, dtype):
 
     def inv(e, scope, k, it):
         _, m = the_map(scope)
+        it = getattr(it, "enum_of", it)  # `for i, p in enumerate(missed)`: same sequence, the index is the iteration number
         if not (hasattr(it, "pos") and hasattr(it.base, "unique_of")):
             raise Unsupported("missed prediction labels are not a filtered view of the unique prediction labels")
         arr, cond, u, wit, idx, n = it.base.unique_of
         if isinstance(k, int) and k == 0 and "c0" not in st:
-            st["c0"] = [to_term(scope.vars[c]) for c in find_counter(scope, the_loop(scope))]  # counter value at loop entry
+            st["c0"] = [to_term(scope.vars[c]) for c in find_base(scope, the_loop(scope))[0]]  # value of the label base at loop entry
         c0 = st.get("c0")
         is_pred = z3.And(0 <= idx(t), idx(t) < n, u(idx(t)) == t)
         missed = z3.And(is_pred, z3.Not(dom0[t]))
@@ -86,10 +97,10 @@ def unit_relabel(ctx, dtype):
             ("domain", z3.ForAll([t], z3.Select(m.dom, t) == z3.Or(dom0[t], z3.And(missed, posn < k)))),
             ("old-entries-kept", z3.ForAll([t], z3.Implies(dom0[t], z3.Select(m.val, t) == val0[t]))),
         ]
-        ctrs = find_counter(scope, the_loop(scope))
+        ctrs, running = find_base(scope, the_loop(scope))
         if len(ctrs) != 1 or not c0:
-            raise Unsupported("expected exactly one integer counter in the fresh-label loop")
-        out.append(("counter", to_term(scope.vars[ctrs[0]]) == c0[0] + k))
+            raise Unsupported("expected exactly one integer the fresh labels are computed from")
+        out.append(("counter", to_term(scope.vars[ctrs[0]]) == (c0[0] + k if running else c0[0])))
         out.append(("fresh-labels", z3.ForAll([t], z3.Implies(z3.And(missed, posn < k, posn >= 0), z3.Select(m.val, t) == c0[0] + posn))))
         st["missed"] = (missed, posn, it, is_pred)
         return out
